@@ -176,9 +176,9 @@ impl Transform for Ellipse {
 #[derive(Clone, Copy, Eq, PartialEq, PartialOrd, Ord, Hash, Debug)]
 #[cfg_attr(feature = "defmt", derive(::defmt::Format))]
 pub(in crate::primitives) struct EllipseContains {
-    a: u32,
-    b: u32,
-    threshold: u32,
+    a: u64,
+    b: u64,
+    threshold: u64,
 }
 
 impl EllipseContains {
@@ -188,12 +188,13 @@ impl EllipseContains {
     pub const fn new(size: Size) -> Self {
         let Size { width, height } = size;
 
-        let a = width.pow(2);
-        let b = height.pow(2);
+        // The products below don't fit into 32 bits for ellipses larger than about 256 x 256 px.
+        let a = (width as u64).pow(2);
+        let b = (height as u64).pow(2);
 
         // Special case for circles, where width and height are equal
         let threshold = if width == height {
-            circle::diameter_to_threshold(width)
+            circle::diameter_to_threshold(width) as u64
         } else {
             b * a
         };
@@ -203,8 +204,8 @@ impl EllipseContains {
 
     /// Returns `true` if the point is inside the ellipse.
     pub const fn contains(&self, point: Point) -> bool {
-        let x = point.x.pow(2) as u32;
-        let y = point.y.pow(2) as u32;
+        let x = (point.x as i64).pow(2) as u64;
+        let y = (point.y as i64).pow(2) as u64;
 
         // Special case for circles, where width and height are equal
         if self.a == self.b {
